@@ -10,6 +10,10 @@ Lean model transcribes.  The functions are normalised (docstrings, comments and 
   subscribesEmbedded -- the subscribe loop iterates `profile_device.all_services` (services of embedded devices
                 included), not only `profile_device.services.values()`
 
+Also pinned verbatim: `_interesting_service` (exact membership of the service type in a `_SERVICE_TYPES` set) and the
+base `_on_event` (forwards to `self.on_event`); profile subclasses (dlna.py, igd.py, printer.py) must not override any
+transcribed function, and an `_on_event` override must end by forwarding unconditionally.
+
 Any other shape raises Untranslatable (reported as broken obligation extract:C12Profile).
 """
 from __future__ import annotations
@@ -136,6 +140,45 @@ SUBSCRIBE = """async def async_subscribe_services(self, auto_resubscribe=False):
     return max(resubcription_timeout, timedelta(seconds=0))"""
 
 
+INTERESTING = """def _interesting_service(self, service):
+    service_type = service.service_type
+    for service_types in self._SERVICE_TYPES.values():
+        if service_type in service_types:
+            return True
+    return False"""
+
+ON_EVENT = """def _on_event(self, service, state_variables):
+    if self.on_event:
+        self.on_event(service, state_variables)"""
+
+FORWARD = "if self.on_event:\n    self.on_event(service, state_variables)"
+
+# functions of UpnpProfileDevice the model transcribes: a subclass overriding one of them would bypass every pin
+NO_OVERRIDE = {"async_subscribe_services", "async_unsubscribe_services", "_async_resubscribe_services",
+               "_resubscribe_loop", "_update_resubscriber_task", "_async_unsubscribe_service", "_interesting_service"}
+SUBCLASS_FILES = ["async_upnp_client/profiles/dlna.py", "async_upnp_client/profiles/igd.py",
+                  "async_upnp_client/profiles/printer.py"]
+
+
+def check_subclasses(repo: Path) -> None:
+    """profile subclasses must not override the transcribed functions; an `_on_event` override must end by forwarding
+    to `self.on_event(service, state_variables)` unconditionally (no `return` before it), so that the empty change
+    list reporting a failed renewal reaches the callback"""
+    for src in SUBCLASS_FILES:
+        mod = extract.parse(repo, src)
+        for cls in [n for n in mod.body if isinstance(n, ast.ClassDef)]:
+            for f in [n for n in cls.body if isinstance(n, (ast.FunctionDef, ast.AsyncFunctionDef))]:
+                if f.name in NO_OVERRIDE:
+                    raise Untranslatable(f"{src}:{cls.name} overrides {f.name}, which the model transcribes from UpnpProfileDevice")
+                if f.name == "_on_event":
+                    body = _Strip().visit(f).body
+                    if not body or ast.unparse(body[-1]) != FORWARD:
+                        raise Untranslatable(f"{src}:{cls.name}._on_event does not end with `{FORWARD}`")
+                    for node in ast.walk(ast.Module(body=body[:-1], type_ignores=[])):
+                        if isinstance(node, (ast.Return, ast.Raise)):
+                            raise Untranslatable(f"{src}:{cls.name}._on_event may leave before forwarding to self.on_event")
+
+
 def update_task(clear: str) -> str:
     return f"""async def _update_resubscriber_task(self):
     if self._resubscriber_task and self._resubscriber_task.{clear}():
@@ -226,8 +269,10 @@ def gen(repo: Path) -> str:
             raise Untranslatable(f"UpnpProfileDevice.{name} not found")
         return norm(funcs[name])
 
+    check_subclasses(repo)
     for name, want in (("_resubscribe_loop", LOOP), ("async_unsubscribe_services", UNSUB),
-                       ("_async_unsubscribe_service", UNSUB_ONE)):
+                       ("_async_unsubscribe_service", UNSUB_ONE), ("_interesting_service", INTERESTING),
+                       ("_on_event", ON_EVENT)):
         got = need(name)
         if got != canon(want):
             raise Untranslatable(f"{name} has an unrecognised shape:\n{got}")
